@@ -350,7 +350,12 @@ class ADWIN(StreamingDetector):
             n_curr + self._window_size
         )
         curr_bucket_row.remove_buckets(1)
-        if curr_bucket_row.bucket_count == 0:
+        # with max_buckets=1, compression can leave rows empty, so the row
+        # before an emptied tail may hold no bucket either
+        while (
+            self._bucket_row_list.size > 1
+            and self._bucket_row_list.tail.bucket_count == 0
+        ):
             self._bucket_row_list.remove_tail()
         return n_curr
 
